@@ -33,6 +33,7 @@ type World struct {
 	ToolErrs  []string
 	tagTypeMap map[int]types.Type
 	tagsAtLoad int
+	zeroGlobals map[*ssa.Global]bool
 	eltyIDs map[string]int
 	implCache map[string][]int
 	embeddable map[string]bool
@@ -117,6 +118,7 @@ func loadWorld(repo string, specDir string) (*World, error) {
 	w.findSentinels()
 	w.computeEmbeddable()
 	w.preRegisterTags(specDir)
+	w.findZeroGlobals()
 	if err := w.prepareSpecs(); err != nil {
 		return nil, err
 	}
@@ -575,4 +577,66 @@ func (w *World) eltyFor(t types.Type) int {
 	id := len(w.eltyIDs) + 1
 	w.eltyIDs[k] = id
 	return id
+}
+
+// findZeroGlobals: package-level byte arrays of the module that have no
+// initialiser and whose only uses are slices passed as the source of copy()
+// keep their zero value for ever.
+func (w *World) findZeroGlobals() {
+	w.zeroGlobals = map[*ssa.Global]bool{}
+	cand := map[*ssa.Global]bool{}
+	for _, p := range w.Prog.AllPackages() {
+		if !strings.HasPrefix(p.Pkg.Path(), modPath) {
+			continue
+		}
+		for _, m := range p.Members {
+			if g, ok := m.(*ssa.Global); ok {
+				if pt, ok := g.Type().(*types.Pointer); ok {
+					if at, ok := pt.Elem().Underlying().(*types.Array); ok && kindOf(at.Elem()) == KInt {
+						cand[g] = true
+					}
+				}
+			}
+		}
+	}
+	for f := range w.AllFuncs {
+		for _, b := range f.Blocks {
+			for _, in := range b.Instrs {
+				for _, op := range in.Operands(nil) {
+					g, ok := (*op).(*ssa.Global)
+					if !ok || !cand[g] {
+						continue
+					}
+					okUse := false
+					if sl, isSlice := in.(*ssa.Slice); isSlice && sl.X == g {
+						okUse = true
+						for _, ref := range *sl.Referrers() {
+							call, isCall := ref.(*ssa.Call)
+							if !isCall {
+								if _, dbg := ref.(*ssa.DebugRef); dbg {
+									continue
+								}
+								okUse = false
+								break
+							}
+							bi, isBi := call.Call.Value.(*ssa.Builtin)
+							if !isBi || bi.Name() != "copy" || len(call.Call.Args) != 2 || call.Call.Args[1] != ssa.Value(sl) || call.Call.Args[0] == ssa.Value(sl) {
+								okUse = false
+								break
+							}
+						}
+					}
+					if _, dbg := in.(*ssa.DebugRef); dbg {
+						okUse = true
+					}
+					if !okUse {
+						delete(cand, g)
+					}
+				}
+			}
+		}
+	}
+	for g := range cand {
+		w.zeroGlobals[g] = true
+	}
 }
